@@ -86,6 +86,13 @@ fn short(s: &str) -> String {
 
 /// Render one single-line template; returns the bar line written to the terminal.
 fn render(tpl: &str, key: Key, content: &str, tw: u16) -> Result<Option<String>, String> {
+    render_with_prefix(tpl, key, content, tw, None)
+}
+
+/// as `render`, additionally setting the bar's prefix (for lines that combine a sized {prefix:W}
+/// field with a wide element)
+fn render_with_prefix(tpl: &str, key: Key, content: &str, tw: u16, extra_prefix: Option<&str>) -> Result<Option<String>, String> {
+    let extra_prefix = extra_prefix.map(|p| p.to_string());
     let spy = Spy::new(tw, u16::MAX);
     let content = content.to_string();
     let sp = spy.clone();
@@ -95,6 +102,9 @@ fn render(tpl: &str, key: Key, content: &str, tw: u16) -> Result<Option<String>,
         // draw, panic again and abort the harness)
         let pb = std::mem::ManuallyDrop::new(ProgressBar::with_draw_target(None, ProgressDrawTarget::term_like(Box::new(sp.clone()))));
         let mut style = ProgressStyle::with_template(&tpl).expect("template");
+        if let Some(p) = extra_prefix {
+            pb.set_prefix(p);
+        }
         match key {
             Key::Msg => pb.set_message(content),
             Key::Prefix => pb.set_prefix(content),
@@ -417,10 +427,31 @@ fn run_field(s: &mut Session, pre: &str, post: &str, key: Key, content: &str, w:
 }
 
 fn run_wide(s: &mut Session, pre: &str, post: &str, msg: &str, al: Al, implicit_left: bool, tw: u16, label: &str) {
+    run_wide_sized(s, None, pre, post, msg, al, implicit_left, tw, label)
+}
+
+/// `sized`: Some((prefix text, W)) puts a sized, NON-truncating, left-aligned `{prefix:W}` field in
+/// front of the line.  By C12_fits / C12_no_trunc that field renders as the prefix padded to W
+/// columns, or as the whole prefix when it is wider than W - either way it is ordinary text of
+/// the line as far as the wide element is concerned (the model gets it as part of `pre`).
+fn run_wide_sized(s: &mut Session, sized: Option<(&str, usize)>, pre: &str, post: &str, msg: &str, al: Al, implicit_left: bool, tw: u16, label: &str) {
+    let tpl_pre = match sized {
+        Some((_, w)) => format!("{{prefix:{w}}}{pre}"),
+        None => pre.to_string(),
+    };
+    let field_text = match sized {
+        Some((p, w)) => format!("{p}{}", " ".repeat(w.saturating_sub(mtw(p)))),
+        None => String::new(),
+    };
+    let pre_owned = format!("{field_text}{pre}");
+    let pre: &str = &pre_owned;
+    if let Some((p, w)) = sized {
+        s.count(if mtw(p) > w { "wide:sized-field:overflows" } else { "wide:sized-field:fits" });
+    }
     let tpl = if al == Al::L && implicit_left {
-        format!("{pre}{{wide_msg}}{post}")
+        format!("{tpl_pre}{{wide_msg}}{post}")
     } else {
-        format!("{pre}{{wide_msg:{}}}{post}", align_spec(al, false))
+        format!("{tpl_pre}{{wide_msg:{}}}{post}", align_spec(al, false))
     };
     let desc = format!("wide tpl={tpl:?} term_width={tw} msg={}", short(msg));
     let (cm, cpre, cpost) = match (char_cols(msg), char_cols(pre), char_cols(post)) {
@@ -438,7 +469,7 @@ fn run_wide(s: &mut Session, pre: &str, post: &str, msg: &str, al: Al, implicit_
     let rest = mtw(pre) + mtw(post);
     let left = (tw as usize).saturating_sub(rest);
     let cols = mtw(msg);
-    let got = render(&tpl, Key::Msg, msg, tw);
+    let got = render_with_prefix(&tpl, Key::Msg, msg, tw, sized.map(|x| x.0));
     s.count(&format!("wide:align:{al:?}"));
     s.count(&format!("wide:content:{label}"));
     s.count(if post.is_empty() { "wide:position:last-in-line(trimmed)" } else { "wide:position:followed-by-literal" });
@@ -616,6 +647,10 @@ fn main() {
         for tw in [1u16, 2, 7, 8, 9, 14, 15, 40] {
             run_wide(&mut s, "[", "]", "abcdefghijkl", al, true, tw, "ascii");
             run_wide(&mut s, "[", "", "abcdefghijkl", al, true, tw, "ascii");
+            // a sized non-truncating field on the same line, fitting and overflowing its width
+            run_wide_sized(&mut s, Some(("Downloading", 4)), " |", "|", "abcdefghijkl", al, true, tw, "ascii");
+            run_wide_sized(&mut s, Some(("dl", 4)), " |", "|", "abcdefghijkl", al, true, tw, "ascii");
+            run_wide_sized(&mut s, Some(("1000", 3)), "/", "", "ab", al, false, tw, "ascii");
             run_wide(&mut s, "", "", "ab  ", al, false, tw, "ascii");
             run_wide(&mut s, "日[", "]é", "ab", al, false, tw, "ascii");
             run_wide(&mut s, "[", "]", "日本語日本語", al, false, tw, "single-alphabet");
@@ -644,7 +679,17 @@ fn main() {
                 9 => *g.r.pick(&[255i64, 256, 65534, 65535]),
                 _ => g.r.range(1, 120) as i64,
             };
-            run_wide(&mut s, &pre, &post, &msg, al, implicit, tw.clamp(1, 65535) as u16, label);
+            // one random wide case in five carries a sized non-truncating {prefix:W} field (ASCII
+            // prefix of 1..12 columns, W in 0..8) in front of the line
+            if g.r.chance(1, 5) {
+                let n = g.r.range(1, 12) as usize;
+                let p: String = (0..n).map(|i| char::from(b'a' + ((i * 7 + n) % 26) as u8)).collect();
+                let w = g.r.below(9) as usize;
+                let field = mtw(&p).max(w);
+                run_wide_sized(&mut s, Some((&p, w)), &pre, &post, &msg, al, implicit, (tw + field as i64).clamp(1, 65535) as u16, label);
+            } else {
+                run_wide(&mut s, &pre, &post, &msg, al, implicit, tw.clamp(1, 65535) as u16, label);
+            }
         } else {
             let (content, label) = g.content();
             let key = *g.r.pick(&[Key::Msg, Key::Msg, Key::Prefix, Key::Custom]);
